@@ -1760,6 +1760,12 @@ class Run:
             return SV(T.INT, H.fresh(name, H.I))
         if name in ("list", "set", "dict") and not args:
             return EmptyContainer(name)
+        if name == "defaultdict":
+            # collections.defaultdict(int | list | set): an empty dict; its static type (with the default factory) comes from
+            # the declared type of the local / field it is stored into
+            if len(args) > 1 or kwargs:
+                raise Reject("defaultdict(factory, initial mapping)")
+            return EmptyContainer("dict")
         if name == "deque":
             # collections.deque used as a FIFO work list: modelled as a list (append at the right, popleft = pop(0))
             if not args or (isinstance(args[0], PyTuple) and not args[0].items) or isinstance(args[0], EmptyContainer):
